@@ -69,7 +69,7 @@ CLAIM = dict(
          "iterates bare, so render_async / generate_async / make_module_async / super() over a fully bracketed template "
          "body close everything. Tie: L-sem model-vs-CPython on random programs x every attack position; L-code every "
          "generated function of generated template sets (for/else/recursive loops with and without filters, blocks, super, "
-         "extends, include, import, macros, call blocks, set/filter blocks, nested) classified and decided by the Lean "
+         "extends (root-level, conditional, if/else, variable), include, import, macros, call blocks, set/filter blocks, nested) classified and decided by the Lean "
          "driver; loop iterables include lists, ranges, async data generators, synchronous generators returned by callables, "
          "iter()/dict views and the generators of |batch/|slice, sync generators also feed the async filters; L-e2e stop after k "
          "chunks, cancel at the k-th await and an exception raised by the data function at the k-th await, for every k through generate_async and "
@@ -468,11 +468,19 @@ class TGen:
         t["mid"] = '{% extends "base" %}' + self.block("b1", d, sup) + (self.block("b2", d, sup) if r.random() < 0.5 else "")
         t["child"] = ('{% extends "mid" %}' + self.block("b1", d, sup)
                       + (self.block("item", d - 1, dict(sup, inloop=True), scoped=True) if "item" in t["base"] and r.random() < 0.7 else ""))
+        # extends that is not at root level (has_known_extends is False: the parent call sits behind `if parent_template is not None`),
+        # with the condition true and false, if/else with two parents, and the parent named by a variable
+        t["condT"] = '{% if yes %}{% extends "base" %}{% endif %}' + self.body(1, full) + self.block("b1", d, sup)
+        t["condF"] = '{% if no %}{% extends "base" %}{% endif %}' + self.body(1, full) + self.block("b1", d, full)
+        t["condE"] = ('{% if ' + r.choice(["yes", "no"]) + ' %}{% extends "mid" %}{% else %}{% extends "base" %}{% endif %}'
+                      + self.block("b2", d, sup))
+        t["varext"] = "{% extends pname %}" + self.block("b1", d, sup)
+        self.hit("conditional-extends")
         for i in (1, 2):
             cx = dict(full, selfblocks=["q"])
             t[f"main{i}"] = self.body(d, cx) + self.block("q", d, full) + self.body(d, cx)
         self.hit("extends")
-        return t, ["base", "mid", "child", "main1", "main2", "inc1"]
+        return t, ["base", "mid", "child", "condT", "condF", "condE", "varext", "main1", "main2", "inc1"]
 
 
 FIXED_SETS = [
@@ -494,6 +502,12 @@ FIXED_SETS = [
     ({"main": "{% set v %}{% for x in xs %}{{ aw(x) }}{% endfor %}{% endset %}{{ v }}{% filter upper %}a{{ aw(1) }}{% endfilter %}"},
      ["main"]),
     ({"main": "{% for x in xs %}{% block item scoped %}{{ x }}{{ aw(x) }}{% endblock %}{% endfor %}"}, ["main"]),
+    # extends behind a condition / an else / a variable (the parent's root generator is opened under `if parent_template is not None`)
+    ({"p": "<{% block b %}P{{ aw(1) }}{% endblock %}|{{ aw(2) }}{% block c %}C{% endblock %}>", "q": "({% block b %}Q{% endblock %}{{ aw(3) }})",
+      "ct": '{% if yes %}{% extends "p" %}{% endif %}{% block b %}c{{ aw(1) }}{{ super() }}{% endblock %}',
+      "cf": '{% if no %}{% extends "p" %}{% endif %}top{{ aw(1) }}{% block b %}own{{ aw(2) }}{% endblock %}',
+      "ce": '{% if no %}{% extends "p" %}{% else %}{% extends "q" %}{% endif %}{% block b %}e{{ aw(1) }}{{ super() }}{% endblock %}',
+      "cv": "{% extends pq %}{% block b %}v{{ super() }}{{ aw(2) }}{% endblock %}"}, ["ct", "cf", "ce", "cv", "p"]),
     # synchronous generators / iterators in every loop position and as inputs of the async filters
     ({"main": "{% for x in sg() %}[{{ x }}]{{ aw(x) }}{% endfor %}"}, ["main"]),
     ({"main": "{% for x in sg() %}{{ loop.index }}{{ aw(x) }}{{ loop.last }}{% endfor %}"}, ["main"]),
@@ -556,7 +570,7 @@ class TRT:
 
 def make_env(jinja2, templates, trt):
     env = jinja2.Environment(enable_async=True, loader=jinja2.DictLoader(dict(templates)))
-    env.globals.update(aw=trt.aw, ax=trt.ax, sg=trt.sg, it=trt.it, dv=trt.dv, xs=[1, 0, 2],
+    env.globals.update(yes=True, no=False, pname="base", pq="p", aw=trt.aw, ax=trt.ax, sg=trt.sg, it=trt.it, dv=trt.dv, xs=[1, 0, 2],
                        tree=[Node(1, [Node(2), Node(0, [Node(3)])]), Node(0), Node(4, [Node(5)])])
     return env
 
@@ -746,9 +760,11 @@ def l_templates(ctx, res, cov, jinja2):
                         f"in this run left it unclosed", where, no_input=True)
     for c, case in leaks.items():
         if c not in explained:
+            why = (f"it was suspended inside a generator that a bare site abandoned (bare sites found: {sorted(static_bare)}; "
+                   f"theorem bare_abandons_subtree)" if static_bare else
+                   "although every site of the template set is classified as closing")
             res.violate(f"C36:bare:{c}", f"a {c} generator is left unclosed after the task finished ({case['mode']} at "
-                        f"{case['k']}, {case['consumer']}) although every site of the template set is classified as closing: "
-                        f"{case['templates'][case['template']]!r}", case)
+                        f"{case['k']}, {case['consumer']}); {why}: {case['templates'][case['template']]!r}", case)
     for c, case in unpredicted.items():
         if c in explained:      # (otherwise already reported by the loop above)
             res.violate(f"C36:unpredicted-leak:{c}", f"a {c} generator leaks in a template set that has no bare site for it: "
